@@ -19,7 +19,7 @@ func init() {
 		Explanation: "Decided: (R1) the supervising actor consults SupervisionStrategy.Supervise exactly once per failure, on its own strategy if set, else the system's; (R2) the one-for-one strategy returns the failing child, the one-for-all strategy the supervisor's children, and the supervision context's accessors return exactly those sets; " +
 			"(R3) every message told while supervising goes to a target, a chained context's target, or the supervisor's parent; (R4) restart / stop / resume / escalate bodies are entered under their own predicate, each does what the directive says, and every decision value enters one of them (unknown ⇒ escalate); " +
 			"(R5) a failure pauses the failing actor's mailbox before its parent is told, and the failure entry is reachable only from the recover block; (R6) no supervision for a failure while handling OnKill, nor OnKilled when the actor is not running or the notice names itself. " +
-			"(R7) the targets recorded in the supervision context (which later resume broadcasts walk) are exactly the strategy's targets that the supervisor paused; (R8) the restart marker, which the termination pipeline trusts to choose between clean-up and re-initialisation, is stored only under the success edge of CAS(state, running→killing): a Restart reaching an actor that is already stopping leaves no trace and cannot revive it; (R9 = C05.R4) the restart step installs the new instance before resetting the behaviour stack to its OnReceive. NOT decided: the run-time effect of each (decision × strategy × failure site) cell.",
+			"(R7) the targets recorded in the supervision context (which later resume broadcasts walk) are exactly the strategy's targets that the supervisor paused; (R8) the restart marker, which the termination pipeline trusts to choose between clean-up and re-initialisation, is stored only under the success edge of CAS(state, running→killing): a Restart reaching an actor that is already stopping leaves no trace and cannot revive it; (R9 = C05.R4) the restart step installs the new instance before resetting the behaviour stack to its OnReceive. (R7, addition) apply-decision records the handed targets on every path and before any tell, broadcast, pause or escalation; (R10 = C01.R6) the suspension is effective: a paused mailbox hands no user message over. NOT decided: the run-time effect of each (decision × strategy × failure site) cell.",
 		Rules: []Rule{
 			{ID: "C08.R1", Min: 2, Desc: "strategy consulted exactly once; own else system", Fn: c08Consult},
 			{ID: "C08.R2", Min: 4, Desc: "target selection of both strategies and the context accessors", Fn: c08Targets},
@@ -38,7 +38,7 @@ func init() {
 		Explanation: "Decided: (R1) every path of the restart step (success and failure) resumes the mailbox; (R2) the termination path resumes it; (R3) the resume decision and both graceful decisions broadcast the resume command to every target along the escalation chain, after the poison message; the broadcast visits every chained context and every target exactly once; " +
 			"(R4) every decision value takes a branch (shared with C08.R4); (R5) zombie: behaviour replaced by the empty one, the restart-failure path tells nobody, a zombie passes the kill CAS, the zombie release path runs the termination cleanup; (R6) a paused mailbox neither spins nor misses the resume: the consumer exits only with the system queue observed empty after the release, re-arms only for eligible work, and Resume wakes (C01.R2/R7/R8). " +
 			"(R10) the supervisor pauses its targets before it sends the directive; a target that ignores the directive (CAS running→killing lost) is not un-paused by the restart step or by its termination: a zombie resumes its own mailbox on the ignored-Restart path (F31, fixed); an actor that is already stopping neither forwards an ignored immediate Kill to its children nor resumes them on an ignored Restart, so a failed child whose failure was escalated by a stopping supervisor stays paused forever and Stop times out (F33, KNOWN FINDING, not repaired). " +
-			"(R8) truth table of the restart step over the results of its hooks: whenever an executed hook reported failure the step marks the actor a zombie and never returns it to running, whatever the other hooks report; (R9 = C01.R6) user messages are popped only under a fresh not-paused observation after every handler call, so mail queued behind a failing message stays queued for the restarted / resumed incarnation. NOT decided: delivery order of the surviving queue at run time, concurrent sibling failures.",
+			"(R8) truth table of the restart step over the results of its hooks: whenever an executed hook reported failure the step marks the actor a zombie and never returns it to running, whatever the other hooks report; (R9 = C01.R6) user messages are popped only under a fresh not-paused observation after every handler call, so mail queued behind a failing message stays queued for the restarted / resumed incarnation. (R7, addition) apply-decision records its targets on every path before acting (an escalated failure is resumed by the level above only through this record); (R11 = C06.R5) a child spawned while the actor is dying is killed at once, so a restart that waits for the child count to reach zero completes. NOT decided: delivery order of the surviving queue at run time, concurrent sibling failures.",
 		Rules: []Rule{
 			{ID: "C09.R1", Min: 1, Desc: "restart step resumes on every path", Fn: c09RestartResumes},
 			{ID: "C09.R2", Min: 2, Desc: "termination resumes; zombie resumes", Fn: c03Parked},
